@@ -2,16 +2,32 @@
    Model: Model/FreeList.v (one shared access per step, any number of threads).
    Status on the unchanged tree: the full statement C01_full is REFUTED by an ABA schedule of
    bufferList.pop (C01_refuted).  The witness is replayed on the real bufferList on every run
-   (corpus/freelist.json) and is a known finding.  What is proved for all executions:
-   C01_held_bounded (never more buffers out than the list has slots, whatever the schedule), and
-   the sequential and ABA-free statements of Proofs/FreeListSeq.v (the C01_partial theorems).          *)
+   (corpus/freelist.json) and is a known finding.  What is proved:
+   - C01_held_bounded: for EVERY execution (any threads, any schedule, ABA or not) never more
+     buffers are out than the list has slots;
+   - C01_partial_aba_free (+ _results, _writes, _structure): for every number of slots, ANY number
+     of threads, every program of alloc / free / update operations and EVERY schedule in which no
+     head-CAS of pop succeeds with a stale head version (aba_free: a decidable predicate of the run;
+     the ghost version counter only observes the unchanged model) — at every moment the buffers held
+     are pairwise distinct slots of the region, every offset an allocation returned is a slot, every
+     store to a slot header is by the thread that holds / has just popped / is pushing that slot or by
+     the one pusher linking behind that free slot, and the structural invariant GInv holds (free
+     chain duplicate-free from head to tail, links complete or pending in exactly one pusher, every
+     other slot has exactly one owner).  Proofs/FreeListConc.v, inductive invariant over schedules.
+   - C01_single_allocator: when at most one thread allocates (any number recycle / update) every
+     execution is ABA-free, so the same conclusions hold for EVERY schedule unconditionally.
+   - C01_partial_sequential (+ C01_sequential_terminates, C01_sequential_functional): one thread
+     running ANY sequence of alloc / free / update operations terminates, returns exactly the results
+     of the abstract FIFO (Proofs/FreeListSeq.v: spec), never holds a buffer twice and only ever
+     holds slots of the region (refinement proof, induction over the operation list).
+   Not covered: programs containing FreeChain (bufferManager.recycleBuffers walks next pointers of
+   held buffers; excluded by progs_nochain); payload bytes are not modelled.  The hypothesis aba_free
+   cannot be dropped (C01_refuted; C01_witness_is_aba shows the witness violates exactly it).
+   nodupb / finished / chain_whole are defined in Proofs/FreeListSeq.v.                             *)
 From Coq Require Import List ZArith Lia Bool Arith.
-From Shm Require Import Gen.Consts Model.FreeList Proofs.FreeListProofs.
+From Shm Require Import Gen.Consts Model.FreeList Proofs.FreeListProofs Proofs.FreeListSeq Proofs.FreeListConc.
 Import ListNotations.
 Open Scope Z_scope.
-
-Fixpoint nodupb (l : list Z) : bool :=
-  match l with [] => true | x :: r => negb (existsb (Z.eqb x) r) && nodupb r end.
 
 (* the property as given: at every moment of every execution the buffers held by all threads are
    pairwise distinct slots of the region (slot-aligned, inside it) and nothing panics *)
@@ -47,6 +63,105 @@ Theorem C01_held_bounded : forall n cpb base len progs sched,
   m_size (mm s) + nheld (thr s) <= n.
 Proof. exact count_bound. Qed.
 Print Assumptions C01_held_bounded.
+
+(* ---- every ABA-free execution: any number of threads, every schedule ---- *)
+Theorem C01_partial_aba_free : forall n cpb, 1 <= n -> 0 <= cpb -> forall base len progs sched,
+  progs_nochain progs -> aba_free sched (ginit (init n cpb base len progs)) = true ->
+  let s := run sched (init n cpb base len progs) in
+  nodupb (all_held s) = true /\ forallb (is_slot (mm s)) (all_held s) = true.
+Proof. exact aba_free_no_double_ownership. Qed.
+Print Assumptions C01_partial_aba_free.
+
+Theorem C01_partial_aba_free_results : forall n cpb base len progs sched,
+  1 <= n -> 0 <= cpb -> progs_nochain progs ->
+  aba_free sched (ginit (init n cpb base len progs)) = true ->
+  let s := run sched (init n cpb base len progs) in
+  forall j p o, nth_error (thr s) j = Some p -> In (RAlloc (Some o)) (res p) -> is_slot (mm s) o = true.
+Proof. exact aba_free_results_are_slots. Qed.
+Print Assumptions C01_partial_aba_free_results.
+
+(* store_target p = the slot whose header the next step of p stores to (exact: tstep_stores) *)
+Theorem C01_partial_aba_free_writes : forall n cpb, 1 <= n -> 0 <= cpb -> forall base len progs sched,
+  progs_nochain progs -> aba_free sched (ginit (init n cpb base len progs)) = true ->
+  let s := run sched (init n cpb base len progs) in
+  forall i p x, nth_error (thr s) i = Some p -> store_target p = Some x ->
+    is_slot (mm s) x = true /\ (In x (owned p) \/ In x (pend (pc p))) /\
+    forall j q, j <> i -> nth_error (thr s) j = Some q -> ~ In x (owned q) /\ ~ In x (pend (pc q)).
+Proof. exact aba_free_no_foreign_write. Qed.
+Print Assumptions C01_partial_aba_free_writes.
+
+Theorem C01_store_target_exact : forall m p m' p',
+  tstep m p = (m', p') -> forall o, store_target p <> Some o ->
+  s_size m' o = s_size m o /\ s_start m' o = s_start m o /\ s_next m' o = s_next m o /\
+  s_flag m' o = s_flag m o /\ s_cap m' o = s_cap m o.
+Proof. exact tstep_stores. Qed.
+Print Assumptions C01_store_target_exact.
+
+Theorem C01_partial_aba_free_structure : forall n cpb, 1 <= n -> 0 <= cpb -> forall base len progs sched,
+  progs_nochain progs -> aba_free sched (ginit (init n cpb base len progs)) = true ->
+  exists C, GInv n cpb (rung sched (ginit (init n cpb base len progs))) C.
+Proof. exact aba_free_invariant. Qed.
+Print Assumptions C01_partial_aba_free_structure.
+
+(* the capacity recorded in every slot header is capPerBuffer in every state of every execution *)
+Theorem C01_capacity_constant : forall n cpb base len progs sched,
+  let s := run sched (init n cpb base len progs) in
+  (forall o, s_cap (mm s) o = cpb) /\ m_cpb (mm s) = cpb /\ m_n (mm s) = n.
+Proof. exact run_cap. Qed.
+Print Assumptions C01_capacity_constant.
+
+(* one allocating thread, any number of recycling threads: every schedule *)
+Theorem C01_single_allocator : forall n cpb base len progs i0 sched,
+  1 <= n -> 0 <= cpb -> progs_nochain progs -> single_allocator i0 progs ->
+  let s := run sched (init n cpb base len progs) in
+  nodupb (all_held s) = true /\ forallb (is_slot (mm s)) (all_held s) = true.
+Proof. exact single_allocator_no_double_ownership. Qed.
+Print Assumptions C01_single_allocator.
+
+(* the refuting schedule violates exactly the hypothesis aba_free *)
+Example C01_witness_is_aba : aba_free aba_sched (ginit (init 5 16 44 228 aba_progs)) = false.
+Proof. vm_compute. reflexivity. Qed.
+
+(* non-vacuity of the ABA-free theorems: an ABA-free interleaving of three threads that passes through
+   a state with a pending link (t0 between its tail-CAS and its next store) and a stale popper (t1
+   parked before its CAS while t2 popped), and completes *)
+Definition ex_progs : list (list fop) := [[Alloc; FreeOldest]; [Alloc]; [Alloc]].
+Definition ex_prefix : list nat := rep 0 13 ++ rep 1 4 ++ rep 2 13 ++ rep 0 5.
+Definition ex_sched : list nat := ex_prefix ++ rep 1 20 ++ rep 0 5.
+Example C01_aba_free_example :
+  aba_free ex_sched (ginit (init 5 16 44 224 ex_progs)) = true /\
+  (let g := rung ex_prefix (ginit (init 5 16 44 224 ex_progs)) in
+   map pc (thr (gs g)) = [PushL1 0 144 None; PopCas 36 72 0; Idle] /\ ver g = 2%nat /\ seen g 1%nat = 1%nat) /\
+  (let s := run ex_sched (init 5 16 44 224 ex_progs) in
+   map res (thr s) = [[RAlloc (Some 0); RDone]; [RAlloc (Some 72)]; [RAlloc (Some 36)]] /\
+   map held (thr s) = [[]; [72]; [36]]).
+Proof. vm_compute. repeat split. Qed.
+
+(* ---- one thread, any operation sequence (no recycle-chain): refinement of the abstract FIFO ---- *)
+Theorem C01_sequential_terminates : forall n cpb base len ops,
+  1 <= n -> 0 <= cpb -> forallb op_nochain ops = true ->
+  exists k, forallb finished (thr (run (repeat O k) (init n cpb base len [ops]))) = true.
+Proof. exact seq_terminates. Qed.
+Print Assumptions C01_sequential_terminates.
+
+Theorem C01_sequential_functional : forall n cpb base len ops k,
+  1 <= n -> 0 <= cpb -> forallb op_nochain ops = true ->
+  let s := run (repeat O k) (init n cpb base len [ops]) in
+  forallb finished (thr s) = true ->
+  map res (thr s) = [fst (fst (spec (L0 n cpb) [] ops))] /\
+  all_held s = snd (spec (L0 n cpb) [] ops) /\
+  Rep (mm s) (snd (fst (spec (L0 n cpb) [] ops))) (snd (spec (L0 n cpb) [] ops)) /\
+  geom (init_mem n cpb base len) (mm s).
+Proof. exact seq_functional. Qed.
+Print Assumptions C01_sequential_functional.
+
+Theorem C01_partial_sequential : forall n cpb base len ops k,
+  1 <= n -> 0 <= cpb -> forallb op_nochain ops = true ->
+  let s := run (repeat O k) (init n cpb base len [ops]) in
+  forallb finished (thr s) = true ->
+  nodupb (all_held s) = true /\ forallb (is_slot (mm s)) (all_held s) = true.
+Proof. exact seq_no_double_ownership. Qed.
+Print Assumptions C01_partial_sequential.
 
 Example C01_witness_shows_double_ownership :
   let s := run aba_sched (init 5 16 44 228 aba_progs) in
